@@ -228,6 +228,54 @@ fn gen_case(rng: &mut Rng) -> Case {
     Case { w, h, path, style, t }
 }
 
+/// Whole-number geometry: axis-aligned polylines with whole side lengths, whole dash lengths and offsets, so
+/// that dash boundaries fall exactly on vertices and on the closing point (no rounding involved); round caps
+/// and joins, for which a boundary on a vertex is unambiguous. Also several subpaths that start at one point
+/// (spokes): the pattern restarts with every one of them.
+fn gen_integer_case(rng: &mut Rng) -> Case {
+    let w = rng.int(20, 48) as i32;
+    let h = rng.int(20, 48) as i32;
+    let mut ops = Vec::new();
+    if rng.chance(0.6) {
+        // a rectangle (closed or left open), possibly walked from another corner
+        let (x0, y0) = (rng.int(2, 8) as f32, rng.int(2, 8) as f32);
+        let (sx, sy) = (rng.int(4, w as i64 - 12) as f32, rng.int(4, h as i64 - 12) as f32);
+        let corners = [(x0, y0), (x0 + sx, y0), (x0 + sx, y0 + sy), (x0, y0 + sy)];
+        let first = rng.below(4) as usize;
+        let rev = rng.chance(0.5);
+        for k in 0..4 {
+            let c = corners[if rev { (first + 4 - k) % 4 } else { (first + k) % 4 }];
+            ops.push(if k == 0 { PathOp::MoveTo(Point::new(c.0, c.1)) } else { PathOp::LineTo(Point::new(c.0, c.1)) });
+        }
+        if rng.chance(0.7) {
+            ops.push(PathOp::Close);
+        }
+    } else {
+        // spokes from one centre
+        let (cx, cy) = (rng.int(8, w as i64 - 8) as f32, rng.int(8, h as i64 - 8) as f32);
+        for _ in 0..rng.int(2, 4) {
+            ops.push(PathOp::MoveTo(Point::new(cx, cy)));
+            let (dx, dy) = match rng.below(4) { 0 => (1., 0.), 1 => (0., 1.), 2 => (-1., 0.), _ => (0., -1.) };
+            let len = rng.int(5, 18) as f32;
+            ops.push(PathOp::LineTo(Point::new(cx + dx * len, cy + dy * len)));
+            if rng.chance(0.4) {
+                ops.push(PathOp::LineTo(Point::new(cx + dx * len + dy * 6., cy + dy * len + dx * 6.)));
+            }
+        }
+    }
+    let n = rng.int(1, 4) as usize;
+    let dash: Vec<f32> = (0..n).map(|_| rng.int(1, 25) as f32 * if rng.chance(0.2) { 5. } else { 1. }).collect();
+    let style = StrokeStyle {
+        width: rng.int(1, 5) as f32,
+        cap: LineCap::Round,
+        join: LineJoin::Round,
+        miter_limit: 4.,
+        dash_array: dash,
+        dash_offset: rng.int(-80, 120) as f32,
+    };
+    Case { w, h, path: Path { ops, winding: Winding::NonZero }, style, t: Transform::identity() }
+}
+
 fn case_desc(c: &Case) -> J {
     let mut d = J::obj();
     d.set("surface", J::s(&format!("{}x{}", c.w, c.h)));
@@ -391,7 +439,7 @@ pub fn run(ctx: &Ctx) -> Outcome {
     run_cases(ctx, &mut out, SubSpec { name: "directed", cases: d.len() as u64, exhaustive: false, max_secs: 60. }, |i, want, st| run_case(&d[i as usize], st, want, &ctx.known));
     run_cases(ctx, &mut out, SubSpec { name: "dashed_strokes", cases: ctx.n(30_000, 800_000), exhaustive: false, max_secs: if ctx.quick() { 40. } else { 900. } }, |i, want, st| {
         let mut rng = ctx.rng("dashed_strokes", i);
-        let c = gen_case(&mut rng);
+        let c = if i % 6 == 5 { gen_integer_case(&mut rng) } else { gen_case(&mut rng) };
         run_case(&c, st, want, &ctx.known)
     });
     // a pattern whose total is not positive paints nothing
